@@ -53,6 +53,24 @@ NoSharedId == \A a, b \in alive : a[1] = b[1] => a = b
 ZeroNeverAlive == ~PAlive(p, <<0, 0>>) /\ <<0, 0>> \notin alive
 CountIsCreationsMinusRemovals == Cardinality(alive) = created - removed /\ Cardinality(alive) = Len(p.ents) - 1 - p.avail
 
+---------------------------------------------------------------------------
+(* Binding to PoolInd.tla (unbounded generations, inductive invariant discharged by Apalache): the arrays of the     *)
+(* implementation-shaped record, the free-list depth read off the chain, and the ghosts derived from the history.   *)
+MaxOf(S, d) == IF S = {} THEN d ELSE CHOOSE x \in S : \A y \in S : y <= x
+Chain == PChain(p)
+AbsN == Len(p.ents) - 1
+AbsLink == [i \in 1..MaxId |-> IF i <= AbsN THEN PSlot(p, i)[1] ELSE 0]
+AbsGen == [i \in 1..MaxId |-> IF i <= AbsN THEN PSlot(p, i)[2] ELSE 0]
+AbsPos == [i \in 1..MaxId |-> IF \E k \in DOMAIN Chain : Chain[k] = i
+                              THEN p.avail - (CHOOSE k \in DOMAIN Chain : Chain[k] = i) + 1 ELSE 0]
+AbsMaxIss == [i \in 1..MaxId |-> MaxOf({ h[2] : h \in { x \in issued : x[1] = i } }, -1)]
+AbsMaxRem == [i \in 1..MaxId |-> MaxOf({ h[2] : h \in { x \in issued \ alive : x[1] = i } }, -1)]
+PI == INSTANCE PoolInd WITH N <- MaxId, n <- AbsN, link <- AbsLink, gen <- AbsGen, next <- p.next, avail <- p.avail,
+                            pos <- AbsPos, maxIss <- AbsMaxIss, maxRem <- AbsMaxRem
+AbsIndInv == PI!IndInv /\ PI!SafetyA
+(* every single Get / Recycle of the implementation-shaped pool is the corresponding PoolInd step *)
+StepsArePoolIndSteps == [][(Get => PI!Get) /\ (Recycle => \E i \in 1..MaxId : PI!Recycle(i))]_vars
+
 (* A newly issued handle differs from every handle issued since creation / the last reset. *)
 FreshHandles == [][lastNew' \cap issued = {}]_vars
 (* Recycled ids are used first, in LIFO order. *)
